@@ -192,6 +192,89 @@ async fn child_async(seed: u64, n: u64) -> std::result::Result<Value, String> {
     }
     stats.insert("replier/rounds", rounds);
     stats.insert("replier/listen_returned_err", listen_errs);
+    // ---------------- consumers with every decompressor, fed degenerate payloads -------------------------
+    // (empty, one byte, the valid compressed form of nothing): some decompressors accept an empty input, others
+    // reject it; either way the consumer must yield a value or an error
+    {
+        use selium::std::traits::codec::MessageEncoder;
+        use selium::std::traits::compression::Compress;
+        let mut degenerate_frames = 0u64;
+        for algo in ["gzip", "zlib", "lz4", "brotli-generic", "zstd"] {
+            let topic = format!("/c06l3/degenerate-{}", algo.replace("-generic", ""));
+            let (cmp, dec) = compression_pair(algo);
+            let mut sub = lc.subscriber(&topic).with_decoder(StringCodec).with_decompression(dec.clone()).open().await.map_err(|e| e.to_string())?;
+            let reader = tokio::spawn(async move {
+                let (mut ok, mut err) = (0u64, 0u64);
+                loop {
+                    match tokio::time::timeout(Duration::from_secs(4), sub.next()).await {
+                        Ok(Some(Ok(s))) => {
+                            if s == "THE-END" {
+                                break;
+                            }
+                            ok += 1
+                        }
+                        Ok(Some(Err(_))) => err += 1,
+                        Ok(None) | Err(_) => break,
+                    }
+                }
+                (ok, err)
+            });
+            let (mut p, r) = rc.open(reg(0, &topic), Duration::from_secs(8)).await.map_err(|e| e.to_string())?;
+            if r != Some(Frame::Ok) {
+                return Err(format!("publisher registration answered {:?}", r));
+            }
+            tokio::time::sleep(Duration::from_millis(150)).await;
+            let of_nothing = cmp.compress(Bytes::new()).map(|b| b.to_vec()).unwrap_or_default();
+            let of_empty_batch = cmp.compress(selium_protocol::utils::encode_message_batch(vec![])).map(|b| b.to_vec()).unwrap_or_default();
+            let payloads: Vec<Vec<u8>> = vec![vec![], vec![0], vec![0x1f], vec![0xff; 3], of_nothing.clone(), of_empty_batch, of_nothing[..of_nothing.len().min(3)].to_vec()];
+            for pl in payloads {
+                for batch in [false, true] {
+                    let f = if batch { Frame::BatchMessage(Bytes::from(pl.clone())) } else { Frame::Message(MessagePayload { headers: None, message: Bytes::from(pl.clone()) }) };
+                    p.send(f).await.map_err(|e| format!("degenerate publish: {e}"))?;
+                    degenerate_frames += 1;
+                }
+            }
+            let end = cmp.compress(StringCodec.encode("THE-END".to_string()).unwrap()).unwrap();
+            for _ in 0..3 {
+                let _ = p.send(Frame::Message(MessagePayload { headers: None, message: end.clone() })).await;
+            }
+            // a consumer that panicked shows in the panic log (and in the JoinError); nothing else is judged here
+            let _ = reader.await;
+        }
+        stats.insert("degenerate_payloads_to_subscribers(5 decompressors)", degenerate_frames);
+        // requestor with lz4 / zlib reply decompression fed empty and one-byte replies by a raw replier
+        for algo in ["lz4", "zlib"] {
+            let topic = format!("/c06l3/degenerate-rr-{}", algo);
+            let (cmp, dec) = compression_pair(algo);
+            let (mut hrep, r) = rc.open(reg(2, &topic), Duration::from_secs(8)).await.map_err(|e| e.to_string())?;
+            if r != Some(Frame::Ok) {
+                return Err(format!("replier registration answered {:?}", r));
+            }
+            let bad = tokio::spawn(async move {
+                let mut k = 0usize;
+                while let Some(Ok(f)) = hrep.next().await {
+                    if let Frame::Message(m) = f {
+                        let body: Vec<u8> = [vec![], vec![0u8], vec![0x78, 0x9c]][k % 3].clone();
+                        k += 1;
+                        if hrep.send(Frame::Message(MessagePayload { headers: m.headers, message: Bytes::from(body) })).await.is_err() {
+                            break;
+                        }
+                    }
+                }
+            });
+            if let Ok(b) = lc.requestor(&topic).with_request_encoder(StringCodec).with_request_compression(cmp.clone()).with_reply_decoder(StringCodec).with_reply_decompression(dec.clone()).with_request_timeout(800u64) {
+                if let Ok(mut rq) = b.open().await {
+                    let call = tokio::spawn(async move {
+                        for i in 0..6 {
+                            let _ = tokio::time::timeout(Duration::from_secs(3), rq.request(format!("q{}", i))).await;
+                        }
+                    });
+                    let _ = call.await;
+                }
+            }
+            bad.abort();
+        }
+    }
     // ---------------- streams finished in the middle of a frame ----------------------------------------
     let (cuts, cut_findings) = super::wirepeers::c06_stream_cuts(addr, &certs).await?;
     stats.insert("stream_cuts", cuts);
@@ -220,7 +303,7 @@ pub fn child_main(seed: u64, n: u64, out: &str) {
     alloc::TRACK.store(false, std::sync::atomic::Ordering::Relaxed);
     let v = match r {
         Ok(Ok(v)) => v,
-        Ok(Err(e)) => json!({"inconclusive": e}),
+        Ok(Err(e)) => json!({"inconclusive": e, "panics": repo_panics_since(0).into_iter().map(|p| json!({"thread": p.thread, "location": p.location, "message": p.message})).collect::<Vec<_>>()}),
         Err(_) => json!({"inconclusive": "watchdog: L3 decoder scenario did not finish in 300 s"}),
     };
     std::fs::write(out, serde_json::to_vec(&v).unwrap()).unwrap();
@@ -274,6 +357,12 @@ pub fn run(rep: &mut StageReport, tier: &str, seed: u64, exe: &str) {
         }
         Some(v) => {
             if let Some(why) = v.get("inconclusive").and_then(|x| x.as_str()) {
+                // a consumer that panicked may be why the scenario could not go on: panics are findings first
+                for p in v.get("panics").and_then(|p| p.as_array()).cloned().unwrap_or_default() {
+                    let loc = p["location"].as_str().unwrap_or("");
+                    let detail = format!("a consuming client panicked at {} on a hostile payload routed through the server: {}", loc, p["message"].as_str().unwrap_or(""));
+                    rep.violation(Violation { signature: format!("C06/l3/consumer-panic/{}", crate::routersim::exec::normalise_location(loc)), detail, replay: String::new() });
+                }
                 rep.inconclusive(why);
                 return;
             }
